@@ -2343,9 +2343,23 @@ def clone(node: Node) -> Node:
     A deep copy of the :class:`Module` object.
   """
   graphdef, state = split(node)
-  # numpy arrays are mutable: the copy must not share their buffers
+
+  def copy_mutable(x):
+    # numpy arrays and containers stored as metadata are mutable: the copy
+    # must not share them with the original
+    if isinstance(x, VariableState):
+      metadata = {k: copy_mutable(v) for k, v in x.get_metadata().items()}
+      return VariableState(x.type, copy_mutable(x.value), **metadata)
+    if isinstance(x, np.ndarray):
+      return x.copy()
+    if isinstance(x, (list, set)):
+      return type(x)(copy_mutable(v) for v in x)
+    if isinstance(x, dict):
+      return {k: copy_mutable(v) for k, v in x.items()}
+    return x
+
   state = jax.tree.map(
-    lambda x: x.copy() if isinstance(x, np.ndarray) else x, state
+    copy_mutable, state, is_leaf=lambda x: isinstance(x, VariableState)
   )
   return merge(graphdef, state)
 
